@@ -70,7 +70,8 @@ func genItems(depth int, max int) []item {
 			out = append(out, item{name: names[pick(2)]})
 			continue
 		}
-		it := item{isBlock: true, name: []string{"blk", "other"}[pick(2)]}
+		// "a" is also an attribute name: attribute names and block types are separate namespaces
+		it := item{isBlock: true, name: []string{"blk", "a"}[pick(2)]}
 		if vf.Param("simple", 0) == 1 {
 			switch pick(5) {
 			case 1:
